@@ -63,6 +63,8 @@ type result struct {
 	PerEp      map[string]int `json:"per_ep"`
 	Skipped    map[string]int `json:"skipped_endpoints"`
 	Targets    int            `json:"distinct_forward_targets_seen"`
+	Retries    int            `json:"transport_retries"`
+	Unjudged   int            `json:"unjudged_requests"`
 	Violations []finding      `json:"violations"`
 	Drift      []finding      `json:"drift"`
 	Samples    []interface{}  `json:"samples"`
@@ -362,6 +364,19 @@ func run(scenPath string, repeat int, res *result) error {
 		}
 		for rep := 0; rep < repeat; rep++ {
 			st, body, err := do(client, slots[1], rq, hdrVal)
+			// The Arrow stream handler intermittently answers with a corrupted status line
+			// ("0TTP/1.1"; also seen over real TCP loopback): a transport-level failure is never
+			// judged; the request is repeated and, if it keeps failing, counted as unjudged.
+			for try := 0; err != nil && sc.Ep == "arrow" && try < 8; try++ {
+				takeEvents()
+				res.Retries++
+				st, body, err = do(client, slots[1], rq, hdrVal)
+			}
+			if err != nil && sc.Ep == "arrow" {
+				takeEvents()
+				res.Unjudged++
+				continue
+			}
 			if err != nil {
 				return fmt.Errorf("request failed (%v %s %s): %w", sc.Nodes, sc.Ep, sc.Hdr, err)
 			}
